@@ -24,6 +24,8 @@ Step ==
     \/ Ac.n = "HandWrite" /\ HandWrite(Ac.es)
     \/ Ac.n = "Read" /\ Read(Ac.o)
     \/ Ac.n = "Modified" /\ Modified(Ac.o, Ac.s, Ac.r)
+    \/ Ac.n = "ModifiedObj" /\ ModifiedObj(Ac.o, Ac.s, Ac.r)
+    \/ Ac.n = "ModifiedNewKey" /\ ModifiedNewKey(Ac.o)
     \/ Ac.n = "ModifiedBad" /\ ModifiedBad(Ac.o, Ac.s)
     \/ Ac.n = "Duplicate" /\ Duplicate(Ac.o, Ac.kind)
 ObsMatch == \/ St' = Ev.post
